@@ -153,6 +153,17 @@ CLAIMED = {
              'on ashes auto-escaping (assumed, A-ashes); control characters in XML are outside the claim.',
         technique='contract-based deductive verification (pyvc + z3), taint predicate over string terms; table by evaluation',
         design_ref='DESIGN.md 7 C09'),
+    'C20': dict(
+        text='Deductive verification of create_app for every kind of error text (str, bytes, None, any object) and '
+             'monitored file list: never raises (the parser sits in a bare except), hands the text itself and the file '
+             'list to the application as resources and registers both the root and the catch-all route; get_flaw_info is '
+             'total and its context carries tb_str unchanged; T obligations on the source: the endpoint parameters are '
+             'exactly resource names (instance of C01/C04) and the template has no raw filter.',
+        note='ashes auto-escaping and rendering assumed (A-ashes); the Application/StaticApplication constructors are '
+             'used as instances of the C01/C04/C14 contracts; a native page check over a fixed catalogue is a bounded '
+             'stand-in; the reloader process is out of reach.',
+        technique='contract-based deductive verification (pyvc + z3) + source-level T obligations',
+        design_ref='DESIGN.md 7 C20'),
 }
 
 REASONS = {}
